@@ -1,7 +1,20 @@
 package main
 
-// Replay of solver models on the real code. Implemented per function family; where no
-// replayer exists the violation is reported with no-failing-input-found.
+// Replay of failed obligations on the real code.
+//
+// * Exhaustively decided obligations (template instantiations type-checked through the real builder,
+//   Unicode class names looked up in the real tables) fail WITH their concrete input: the flag
+//   combination or the class name; that is the reproduced failure.
+// * The string lemma returns a z3 model (two (rule, index) pairs with the same method name).
+// * Deductive obligations over function bodies: the solvers answer unknown/timeout under the quantified
+//   preludes, so there is no model to replay; the violation is reported with no-failing-input-found and
+//   the replay file carries the failed paths, solver output and .smt2 files.
 func replayModel(d *Driver, q *Query) (bool, string) {
+	if q.Solver == "exhaustive" {
+		return true, "failing input (decided on the real code): " + q.Obligation + ": " + q.Model
+	}
+	if q.Kind == "lemma" && q.Result == "sat" {
+		return false, "solver model: " + q.Model
+	}
 	return false, ""
 }
